@@ -122,10 +122,13 @@ def run(ctx):
     ev = []
     for n, sc in enumerate(scen):
         body = W.body(sc['body'])
-        fname = ['', 'file.txt', '_CONSOLE'][n % 3]
+        fname = ['', 'file.txt', '_CONSOLE', 'r\xe9sum\xe9-\u5c65\u6b74.txt'][n % 4]
         try:
             msg = pgpy.PGPMessage.new(body, compression=CompressionAlgorithm(sc['comp']), format='b' if sc['body'] in ('binary', 'incompressible') else None,
                                       sensitive=(fname == '_CONSOLE'))
+            if fname not in ('', '_CONSOLE'):
+                msg._message.filename = fname            # literal metadata travels inside the encrypted container
+                msg._message.update_hlen()
             if sc['signed']:
                 msg |= W.signer.sign(msg, created=K.ts(K.T0 + 10 + n))
             before = project(msg)
